@@ -49,6 +49,9 @@ def h_roundtrip(ctx, variant, twin=None):
         text = a.to_str(**v)
         b = Address(text)
         ctx.require(And(b.wc == wc, b.hash_part == acc), 'parse(render(a)) has the same workchain and account id')
+        b2 = Address(text)
+        ctx.require(And(b2.wc == wc, b2.hash_part == acc, b2 == a), 'parsing the same text again gives the same address')
+        ctx.require(a.to_str(**v) == text if not ctx.symbolic else True, 'rendering twice gives the same text')
         eq = a == b
         ctx.require(eq, 'parse(render(a)) == a')
         if v.get('is_user_friendly', True):
@@ -132,12 +135,19 @@ def h_corrupt(ctx, pos, variant=1, twin=None):
             elif pos == 45:
                 d2 = (delta & 15) << 12
                 ctx.assume(Not(AM.crc16(body2) == (crc ^ d2.to_bytes(2, 'big') if not isinstance(d2, int) or d2 else crc)) if twin != 'nochange' else True)
-        try:
-            Address(text)
-            accepted = True
-        except Exception:
-            accepted = False
-        ctx.require(not accepted, 'friendly address with one replaced character is rejected')
+        if twin != 'nochange':
+            # the genuine text is parsed first and the corrupted text is offered more than once: the verdict on a text may
+            # not depend on what was parsed before (a parse cache filled before the checksum test would show here)
+            good = _corrupt(ctx, payload, pos, delta - delta, v['is_url_safe'])
+            g = Address(good)
+            ctx.require(And(g.wc == wc, g.hash_part == acc), 'the genuine friendly text parses')
+        for attempt in (1, 2, 3):
+            try:
+                Address(text)
+                accepted = True
+            except Exception:
+                accepted = False
+            ctx.require(not accepted, 'friendly address with one replaced character is rejected' + ('' if attempt == 1 else ' (offered again)'))
     finally:
         if saved:
             AM.crc16 = saved
